@@ -1261,8 +1261,19 @@ def pattern_or_i32_const_reg(context, tree, c0):
     return d
 
 
-@isa.pattern("reg", "SHRU8(reg, reg)", size=2)
-@isa.pattern("reg", "SHRU16(reg, reg)", size=2)
+@isa.pattern("reg", "SHRU8(reg, reg)", size=6)
+def pattern_shr_u8(context, tree, c0, c1):
+    # The upper bits of a narrow value are not defined, clear them first
+    c0 = extend_narrow_value(context, c0, 8, False)
+    return pattern_shr_u32(context, tree, c0, c1)
+
+
+@isa.pattern("reg", "SHRU16(reg, reg)", size=6)
+def pattern_shr_u16(context, tree, c0, c1):
+    c0 = extend_narrow_value(context, c0, 16, False)
+    return pattern_shr_u32(context, tree, c0, c1)
+
+
 @isa.pattern("reg", "SHRU32(reg, reg)", size=2)
 def pattern_shr_u32(context, tree, c0, c1):
     d = context.new_reg(RiscvRegister)
@@ -1360,7 +1371,14 @@ def pattern_div_i32(context, tree, c0, c1):
     return d
 
 
-@isa.pattern("reg", "DIVU16(reg, reg)", size=10)
+@isa.pattern("reg", "DIVU16(reg, reg)", size=14)
+def pattern_div_u16(context, tree, c0, c1):
+    # The upper bits of a narrow value are not defined, clear them first
+    c0 = extend_narrow_value(context, c0, 16, False)
+    c1 = extend_narrow_value(context, c1, 16, False)
+    return pattern_div_u32(context, tree, c0, c1)
+
+
 @isa.pattern("reg", "DIVU32(reg, reg)", size=10)
 def pattern_div_u32(context, tree, c0, c1):
     d = context.new_reg(RiscvRegister)
@@ -1375,7 +1393,13 @@ def pattern_rem_i32(context, tree, c0, c1):
     return d
 
 
-@isa.pattern("reg", "REMU16(reg, reg)", size=10)
+@isa.pattern("reg", "REMU16(reg, reg)", size=14)
+def pattern_rem_u16(context, tree, c0, c1):
+    c0 = extend_narrow_value(context, c0, 16, False)
+    c1 = extend_narrow_value(context, c1, 16, False)
+    return pattern_rem_u32(context, tree, c0, c1)
+
+
 @isa.pattern("reg", "REMU32(reg, reg)", size=10)
 def pattern_rem_u32(context, tree, c0, c1):
     d = context.new_reg(RiscvRegister)
